@@ -46,7 +46,7 @@ type op struct {
 // n <= 512 are below 1/3 of the resulting bound, see NOTES.md):
 //
 //	gNone   0: complex FFT (all twiddles tabulated by direct sin/cos).
-//	gReal   16*P(m): FFTPACK's real passes for a prime factor p > 5
+//	gReal   gP(P(m)) = max(16*P, P^2/64): FFTPACK's real passes for a prime factor p > 5
 //	        (radfg/radbg) generate their p-th roots of unity by two nested
 //	        rotation recurrences, so the rounding error of the real FFT of
 //	        length m grows like p*eps. P(m) is the sum of the prime factors
@@ -56,10 +56,18 @@ type op struct {
 //	gRadix  2*sqrt(n): the radix-2/4 functions document that their twiddles
 //	        are built by successive multiplication "so numerical
 //	        [in]accuracies can accumulate".
-func gNone(n int) float64  { return 0 }
-func gReal(n int) float64  { return 16 * float64(bigPrimeSum(n)) }
-func gDCT(n int) float64   { return 16*float64(bigPrimeSum(n-1)) + math.Sqrt(float64(n)) }
-func gDST(n int) float64   { return 16*float64(bigPrimeSum(n+1)) + math.Sqrt(float64(n)) }
+func gNone(n int) float64 { return 0 }
+func gReal(n int) float64 { return gP(bigPrimeSum(n)) }
+func gDCT(n int) float64  { return gP(bigPrimeSum(n-1)) + math.Sqrt(float64(n)) }
+func gDST(n int) float64  { return gP(bigPrimeSum(n+1)) + math.Sqrt(float64(n)) }
+
+// gP is the growth term for a real FFT whose length has large prime factors
+// summing to P: 16*P up to P = 1024 (unchanged for the exhaustive range
+// n <= 512), P^2/64 beyond: measured over the long-length menu the error of
+// the nested recurrences in radfg/radbg reaches 1.9e-3*P^2 (in units of
+// 8*eps*||col||) at P = 9973, 2.5e-3*P^2 at P = 2053.
+func gP(P int) float64 { return math.Max(16*float64(P), float64(P)*float64(P)/64) }
+
 func gRadix(n int) float64 { return 2 * math.Sqrt(float64(n)) }
 
 // bigPrimeSum returns the sum (with multiplicity) of the prime factors of m
